@@ -134,8 +134,23 @@ pub fn dcols() -> usize {
     *V.get_or_init(|| std::env::var("VERIF_REGISTRY_COLS").ok().and_then(|s| s.parse().ok()).unwrap_or(2))
 }
 
+/// the translator could not locate the default geometry in the source (tools/check exports this): the
+/// values behind drows()/dcols() are then the pinned revision's and say nothing about the tree under test
+pub fn geometry_unknown() -> bool {
+    static V: std::sync::OnceLock<bool> = std::sync::OnceLock::new();
+    *V.get_or_init(|| std::env::var("VERIF_GEOMETRY_UNKNOWN").map(|s| s == "1").unwrap_or(false))
+}
+
+/// A case with the DEFAULT geometry is built by the public constructor, i.e. with whatever cache the tree
+/// under test gives its builders (the hook is for the other geometries): comparisons between two builds of
+/// the implementation never depend on what the translator read, and a wrong reading shows as a
+/// difference from the model (bytes, cache counters), which knows the geometry only through the translator.
 fn raw_builder(ty: u64, rows: usize, cols: usize) -> Builder<Vec<u8>> {
-    Builder::verif_new_type_with_cache(Vec::new(), ty, rows, cols).unwrap()
+    if (rows, cols) == (drows(), dcols()) {
+        Builder::new_type(Vec::new(), ty).unwrap()
+    } else {
+        Builder::verif_new_type_with_cache(Vec::new(), ty, rows, cols).unwrap()
+    }
 }
 
 /// Several extend_iter / extend_stream calls on ONE builder: a batch stops at its first rejected item (that error is
